@@ -68,6 +68,14 @@ def payloads(tier):
             add("init-from-method-call", rp, ["def rmo := RM()", "def pv: %s := rmo.m()" % P], ok, tg, 1)
             add("init-from-call", rp, ["def pv: %s := rg()" % P], ok, tg, 0)
             add("arg-is-method-call", rp + ["def pf(x: %s) -> Int => 1" % P], ["def rmo := RM()", "def pr: Int := pf(rmo.m())"], ok, tg, 1)
+            # the use stands BEHIND a return / raise in the same block: unreachable, but checked like any other statement
+            ur = ["def pf(x: %s) -> Int => 1" % P, "class UE(msg: Str): Exception(msg)"]
+            add("call-after-return", ur + ["def ar(c: Bool) -> Int =>", "    if c then", "        return 1", "        def pr: Int := pf(%s)" % v, "    2"], ["ar(True)"], ok, tg, ("prelude", len(CLASSES) + 5))
+            add("call-after-raise", ur + ["def ar(c: Bool) -> Int raise [UE] =>", "    if c then", '        raise UE("x")', "        def pr: Int := pf(%s)" % v, "    2"], ["def ares: Int := ar(False) handle", "    ue: UE => 0"], ok, tg,
+                ("prelude", len(CLASSES) + 5))
+            add("init-after-return-at-function-level", ur + ["def ar() -> Int =>", "    return 1", "    def pv: %s := %s" % (P, v)], ["ar()"], ok, tg, ("prelude", len(CLASSES) + 4))
+            add("return-after-return", ur + ["def ar(c: Bool) -> %s =>" % P, "    if c then", "        return %s" % VAL[P], "        return %s" % v, "    %s" % VAL[P]], ["ar(True)"], ok, tg,
+                ("prelude", len(CLASSES) + 5))
             # the value is a FIELD read whose declared type is T
             fp = ["class RF", "    def f: %s := %s" % (T, v)]
             add("implicit-last-field", fp + ["def rl(o: RF) -> %s => o.f" % P], ["rl(RF())"], ok, tg, ("prelude", len(CLASSES) + 2))
